@@ -48,6 +48,12 @@ CLAIMED = {
    text="Intersects symmetric, reflexivity, A∩B iff not complement(A)⊇B, A⊇B iff complement(B)⊇complement(A), polygon==loop answers, Contains/!Intersects sound on all probes, IsHole == parity of enclosing loops, on every pair / subset order of the catalogues.",
    note="Catalogue of 46-62 loops and 12 polygons; loops up to 100 vertices.",
    design="DESIGN.md §6 C07"),
+
+ "C08": dict(level="exploration", engine="E3 enum",
+   technique="bounded-exhaustive enumeration: every index x target x option-grid combination (closest and furthest) compared with an exhaustive scan over all edges using the target's own per-edge distance; a hook counts queries really answered by the optimized search",
+   text="FindEdges, Distance, IsDistanceLess/Greater and the conservative tests equal the scan on every combination of 9-13 indexes (1-6 faces, 8-300 edges), 11-13 targets (points, edges, cells, a second index) and 50 option sets: results sorted, duplicate-free, within MaxResults and the distance limit, each with its true distance, and within MaxError (as an angle) of the i-th optimum.",
+   note="Per-edge distances are taken from the target's own updateDistanceToEdge (accuracy is C12/C17's business); ties compared as distances; interiors rule asserted for closest point targets only.",
+   design="DESIGN.md §6 C08"),
 }
 
 PLANNED = {  # not yet claimed: each gets a reason in not_applicable until its check is committed
